@@ -59,6 +59,12 @@ func (m *ModelServer) relativeAdjustment(relative map[string]int32) resource.Upd
 		if newVal.Values == nil {
 			newVal.Values = make(map[string]string)
 		}
+		if len(newVal.Values) == 0 {
+			// all updates are relative: the modes that are not adjusted keep their current value
+			for modeName, value := range oldVal.Values {
+				newVal.Values[modeName] = value
+			}
+		}
 
 	adjustments:
 		for modeName, adjustment := range relative {
